@@ -36,10 +36,14 @@ X1 = binop('=', own('x'), ('lit', 'int', '1'))
 
 
 def _pred(ch, visible):
-    opts = [None, None, X0, X1, X0, X1, mast.FALSE, mast.TRUE]
+    opts = [None, None, X0, X1, X0, X1, mast.FALSE, mast.TRUE, binop('and', X0, X1), binop('or', X0, X1), ('un', 'not', X0), binop('and', X1, ('un', 'not', X0))]
     for a in visible:
-        opts.append(binop('=', own('x'), ('field', ('var', a), 'x')))
-        opts.append(binop('=', own('x'), ('field', ('var', a), 'x')))
+        eq = binop('=', own('x'), ('field', ('var', a), 'x'))
+        opts.append(eq)
+        opts.append(eq)
+        # conjunctions and disjunctions (a message may satisfy one part only)
+        opts.append(binop('and', ch.pick([X0, X1]), eq))
+        opts.append(binop('or', ch.pick([X0, X1]), ('un', 'not', eq)))
     return ch.pick(opts)
 
 
@@ -71,6 +75,13 @@ def gen_property(ch):
 
     A, B = ['a1', 'a2', 'a3'], ['b1', 'b2', 'b3']
     if ch.int(0, 3) == 0:
+        # pattern events may also listen on the channel of the terminator or of the activator
+        extra = ([('q')] if term is not None else []) + (['p'] if act is not None else [])
+        if extra:
+            B = [ch.pick(extra)] + B[:2] if ch.bool() else B[:1] + [ch.pick(extra)] + B[1:2]
+            if ch.bool():
+                A = [ch.pick(extra)] + A[:2]
+    elif ch.int(0, 3) == 0:
         # trigger and behaviour may be events on the same topics (a channel may not repeat inside ONE disjunction only);
         # with equal predicates the two positions are then equal sub-trees
         A = B = ['b1', 'b2', 'b3']
